@@ -53,7 +53,7 @@ def gen(tier, rng):
             b = ["floats", [x + rng.choice([0.3, -0.3, 0.5, 0.0]) for x in bins]]
             b[1] = [x if x >= 0.6 else 1.0 for x in b[1]]
         elif r < 0.8:
-            b = ["qty_pix", bins]
+            b = ["qty_pix", [x + rng.choice([0.0, 0.0, 0.3, -0.3, 0.4]) for x in bins]]     # pixel Quantities that round, too
         elif r < 0.84:
             b = ["qty_m", bins]
         elif r < 0.92:
